@@ -198,6 +198,11 @@ fn build(seeds: &[u16]) -> (CfgSpec, Vec<(String, String, bool)>, Vec<String>, S
         if s.chance(30) {
             script.push((h.clone(), "AWAY :hidden away".into(), true));
         }
+        // things the hidden user does afterwards that must leave its +i alone
+        if s.chance(40) {
+            let l = ["OPER op0 operpw0", "OPER op0 wrong", "MODE nh +w", "MODE nh -w+w", "CAP REQ :multi-prefix", "CAP END", "MODE nh +i", "MODE nh -o", "AWAY"][s.pick(9)];
+            script.push((h.clone(), l.into(), true));
+        }
         let all = [
             "WHO nh".to_string(),
             "WHO *".to_string(),
